@@ -291,6 +291,18 @@ impl Scenario for BaScenario {
             return RunRes::inconclusive("tamper_not_delivered", format!("site {} never reached", site.to_json()), shape, Some(o2));
         }
         let (a, b) = ((corrupt + 1) % 3, (corrupt + 2) % 3);
+        // the helper that received an altered product share is the verifier to the left of the deviating party: it is the one
+        // that has to reject (whatever the others do)
+        if !site.chan.gate.contains("/validate") && site.chan.kind == "mpc" && site.chan.dst != corrupt {
+            if let Some(Ok(_)) = bad.res.get(&site.chan.dst) {
+                let mut r = RunRes::violation("dzkp_receiver_of_altered_share_accepted",
+                    format!("helper {} altered a multiplication message {} ; helper {} - the verifier to its left, which received the altered share - validated the batch (the other honest helper: {})",
+                        corrupt + 1, site.to_json(), site.chan.dst + 1, match bad.res.get(&(3 - corrupt - site.chan.dst)) { Some(Ok(_)) => "accepted too".to_string(), Some(Err(e)) => format!("rejected: {}", truncate(e, 80)), None => "no result".to_string() }),
+                    shape, Some(o2.clone()));
+                r.extra = json!({"site": site.to_json(), "fired": bad.fired});
+                return r;
+            }
+        }
         let mut res = match (bad.res.get(&a), bad.res.get(&b)) {
             (Some(Ok(ra)), Some(Ok(rb))) => {
                 let wrong = (0..records).find(|k| ra[*k].1 != rb[*k].0 || (ra[*k].0 ^ ra[*k].1 ^ rb[*k].1) != want(*k));
